@@ -540,7 +540,9 @@ pub fn datelit(lang: &'static str) -> impl Strategy<Value = DateLit> {
 }
 
 pub fn impossible(lang: &'static str) -> impl Strategy<Value = DateLit> {
-    (1i32..=9999, 1u32..=12, 0u8..4, spell_strategy()).prop_map(move |(y, m, kind, spell)| {
+    // (a fifth of the cases: 29 February of a century year that is not a leap year - the rule a hand-made calendar gets wrong)
+    (prop_oneof![4 => (1i32..=9999, 1u32..=12), 1 => prop::sample::select(vec![100i32, 200, 300, 500, 1700, 1800, 1900, 2100, 2200, 2300, 2500, 9900]).prop_map(|y| (y, 2u32))], 0u8..4, spell_strategy()).prop_map(move |((y, m), kind, spell)| {
+        let kind = if m == 2 && y % 100 == 0 { 1 } else { kind };
         let dim = days_in_month(y as i64, m as i64) as u32;
         let (m2, d2) = match kind {
             0 => (m, 0),
